@@ -20,8 +20,20 @@ def _T():
     return core.boot()
 
 
+def _dropouts(spec):
+    if isinstance(spec, dict):
+        for k, v in spec.items():
+            if k == "dropout":
+                yield float(v or 0.0)
+            else:
+                yield from _dropouts(v)
+    elif isinstance(spec, list):
+        for v in spec:
+            yield from _dropouts(v)
+
+
 def _sd(module):
-    return {k: core.tbytes(v) for k, v in module.state_dict().items()}
+    return {k: core.tbytes(v) for k, v in module.state_dict().items() if hasattr(v, "dtype") and hasattr(v, "shape")}
 
 
 class C15World(World):
@@ -54,8 +66,8 @@ class C15World(World):
     def gen_config(cls, rng, tier):
         spec = zoo.gen_spec(rng, allow_slow=rng.chance(0.1 if tier == "quick" else 0.25))
         # C15 continues TRAINING on all incarnations and compares bit for bit, which is only meaningful when a
-        # training-mode pass is a deterministic function of (state, input): dropout (stateless, nothing to save) off
-        spec = zoo.without_dropout(spec)
+        # training-mode pass is a deterministic function of (state, input). Models with dropout > 0 are still built,
+        # saved, reloaded and compared - but only in evaluation mode (see `stochastic_training`)
         cfg = {"spec": spec, "label": zoo.label(spec), "seed": rng.seed30(),
                "length": rng.pick([3, 4, 5, 6, 8, 10, 12] if tier == "quick" else [5, 8, 12, 20, 30]),
                "weights": {k: rng.pick([0, 1, 1, 3]) for k in OPKINDS}}
@@ -104,6 +116,9 @@ class C15World(World):
         self.updated = False
         self.torn = False
         self.sampling_uncontrolled = False
+        self.stochastic_training = any(v > 0 for v in _dropouts(cfg["spec"]))
+        if self.stochastic_training:
+            self.inc[0].eval()
         self.has_init = [m for m in self.inc[0].modules() if type(m).__name__ == "ActNorm"]
 
     def abstract(self):
@@ -242,6 +257,12 @@ class C15World(World):
     def step(self, op, log):
         torch = _T()
         kind = op["op"]
+        if self.stochastic_training and kind in ("train", "trainpass", "update"):
+            # dropout > 0: a training-mode pass draws random masks (from whatever generator the library likes), so
+            # original and reincarnation cannot be compared bit for bit there; such models live in evaluation mode
+            log.add("skipped_stochastic_training_op", kind)
+            self._lockstep(kind)
+            return
         if kind == "train":
             for r in self.inc:
                 r.train()
@@ -324,6 +345,8 @@ class C15World(World):
         if getattr(result, "missing_keys", None) or getattr(result, "unexpected_keys", None):
             raise Violation("state_dict_does_not_reload", "missing %s unexpected %s" % (result.missing_keys, result.unexpected_keys))
         fresh.train(src.training)
+        if self.stochastic_training:
+            fresh.eval()
         self.inc.append(fresh)
         if len(self.inc) > 3:
             self.inc.pop(1)           # keep the original, the previous generation and the newest
